@@ -33,6 +33,7 @@ type txSpec struct {
 	id   int
 	ins  []op
 	nout int
+	scr  []int // script id of each output (several outputs, also of different transactions, may share one)
 }
 
 type reqSpec struct {
@@ -61,8 +62,21 @@ var (
 	errBlock  = errors.New("injected: block fetch failed")
 )
 
-func script(txid, idx int) []byte {
-	return []byte{0x51, 0x03, byte(txid >> 8), byte(txid), byte(idx)}
+// script is the pkScript with the given id.
+func script(id int) []byte {
+	return []byte{0x51, 0x04, byte(id >> 24), byte(id >> 16), byte(id >> 8), byte(id)}
+}
+
+// defaultScript is the script id of an outpoint no transaction of the chain creates (unknown
+// transaction or output index out of range); the Lean driver uses the same formula.
+func defaultScript(txid, idx int) int { return 100000 + txid*100 + idx }
+
+// scriptOf is the script id of an outpoint.
+func (w *world) scriptOf(txid, idx int) int {
+	if s, ok := w.scr[op{txid, idx}]; ok {
+		return s
+	}
+	return defaultScript(txid, idx)
 }
 
 func fakeHash(txid int) chainhash.Hash {
@@ -76,14 +90,16 @@ type world struct {
 	heightOf map[chainhash.Hash]int
 	txHash   map[int]chainhash.Hash
 	txNum    map[chainhash.Hash]int
+	scr      map[op]int
 
 	mu         sync.Mutex
 	k          int
 	log        []string
 	scanActive bool
 	endH       int
-	bestRun    int // consecutive BestSnapshot calls with no GetBlockHash call in between
-	slowHangs  int // HANGs that had to wait for the whole watchdog
+	lastCall   time.Time // time of the last callback from the scanner
+	bestRun    int       // consecutive BestSnapshot calls with no GetBlockHash call in between
+	slowHangs  int       // HANGs that had to wait for the whole watchdog
 	live       []*liveReq
 	stopDone   chan struct{}
 	stopFired  bool
@@ -110,7 +126,18 @@ func (w *world) hashOfTx(txid int) chainhash.Hash {
 
 func build(c *caseSpec) *world {
 	w := &world{c: c, heightOf: map[chainhash.Hash]int{}, txHash: map[int]chainhash.Hash{},
-		txNum: map[chainhash.Hash]int{}, stopDone: make(chan struct{})}
+		txNum: map[chainhash.Hash]int{}, scr: map[op]int{}, stopDone: make(chan struct{})}
+	for _, txs := range c.blocks {
+		for i := range txs {
+			t := &txs[i]
+			for o := 0; o < t.nout; o++ {
+				if o >= len(t.scr) {
+					t.scr = append(t.scr, defaultScript(t.id, o)+500000) // own script
+				}
+				w.scr[op{t.id, o}] = t.scr[o]
+			}
+		}
+	}
 	var prev chainhash.Hash
 	for h, txs := range c.blocks {
 		mb := wire.NewMsgBlock(&wire.BlockHeader{Version: 1, PrevBlock: prev,
@@ -121,7 +148,7 @@ func build(c *caseSpec) *world {
 				mt.AddTxIn(wire.NewTxIn(&wire.OutPoint{Hash: w.hashOfTx(in.txid), Index: uint32(in.idx)}, nil, nil))
 			}
 			for o := 0; o < t.nout; o++ {
-				mt.AddTxOut(wire.NewTxOut(int64(t.id*100+o), script(t.id, o)))
+				mt.AddTxOut(wire.NewTxOut(int64(t.id*100+o), script(t.scr[o])))
 			}
 			th := mt.TxHash()
 			w.txHash[t.id] = th
@@ -154,6 +181,7 @@ func (w *world) bestSnapshot() (*headerfs.BlockStamp, error) {
 	w.mu.Lock()
 	defer w.mu.Unlock()
 	t := w.tipLocked()
+	w.lastCall = time.Now()
 	w.bestRun++
 	if w.stopFired {
 		w.scanActive = false
@@ -170,7 +198,7 @@ func (w *world) bestSnapshot() (*headerfs.BlockStamp, error) {
 func (w *world) enqueue(l *liveReq) {
 	in := &neutrino.InputWithScript{
 		OutPoint: wire.OutPoint{Hash: w.hashOfTx(l.spec.txid), Index: uint32(l.spec.idx)},
-		PkScript: script(l.spec.txid, l.spec.idx),
+		PkScript: script(w.scriptOf(l.spec.txid, l.spec.idx)),
 	}
 	l.req, l.enqErr = w.sc.Enqueue(in, uint32(l.spec.birth), nil)
 }
@@ -178,6 +206,7 @@ func (w *world) enqueue(l *liveReq) {
 func (w *world) getBlockHash(height int64) (*chainhash.Hash, error) {
 	w.mu.Lock()
 	w.k++
+	w.lastCall = time.Now()
 	w.bestRun = 0
 	k := w.k
 	var arr []*liveReq
@@ -222,27 +251,27 @@ func (w *world) getBlockHash(height int64) (*chainhash.Hash, error) {
 	return &h, nil
 }
 
+// filterMatches answers from the watch list it is handed, the way a BIP158 basic filter would: the
+// block matches iff one of its transactions touches a script of the list (an input spends an output
+// paying to it, or an output pays to it).  Scripted false positives are added; there are no false
+// negatives with respect to the list.
 func (w *world) filterMatches(watch [][]byte, bh *chainhash.Hash) (bool, error) {
 	w.mu.Lock()
 	defer w.mu.Unlock()
+	w.lastCall = time.Now()
 	h := w.heightOf[*bh]
 	set := map[string]bool{}
-	var ops []op
+	var ids []int
 	for _, s := range watch {
 		set[string(s)] = true
-		if len(s) == 5 {
-			ops = append(ops, op{int(s[2])<<8 | int(s[3]), int(s[4])})
+		if len(s) == 6 {
+			ids = append(ids, int(s[2])<<24|int(s[3])<<16|int(s[4])<<8|int(s[5]))
 		} else {
-			ops = append(ops, op{-1, -1})
+			ids = append(ids, -1)
 		}
 	}
-	sort.Slice(ops, func(i, j int) bool {
-		if ops[i].txid != ops[j].txid {
-			return ops[i].txid < ops[j].txid
-		}
-		return ops[i].idx < ops[j].idx
-	})
-	ws := tr.Join(ops, func(o op) string { return fmt.Sprintf("%d.%d", o.txid, o.idx) })
+	sort.Ints(ids)
+	ws := tr.Join(ids, func(i int) string { return fmt.Sprint(i) })
 	if w.c.fltrErr[w.k] {
 		w.log = append(w.log, fmt.Sprintf("cb filter %d %s => err", h, ws))
 		w.scanActive = false
@@ -252,7 +281,12 @@ func (w *world) filterMatches(watch [][]byte, bh *chainhash.Hash) (bool, error) 
 	for _, t := range w.blocks[h].MsgBlock().Transactions {
 		for _, in := range t.TxIn {
 			n, ok := w.txNum[in.PreviousOutPoint.Hash]
-			if ok && set[string(script(n, int(in.PreviousOutPoint.Index)))] {
+			if ok && set[string(script(w.scriptOf(n, int(in.PreviousOutPoint.Index))))] {
+				match = true
+			}
+		}
+		for _, out := range t.TxOut {
+			if set[string(out.PkScript)] {
 				match = true
 			}
 		}
@@ -273,6 +307,7 @@ func b2i(b bool) int {
 func (w *world) getBlock(bh chainhash.Hash, _ ...neutrino.QueryOption) (*btcutil.Block, error) {
 	w.mu.Lock()
 	defer w.mu.Unlock()
+	w.lastCall = time.Now()
 	h := w.heightOf[bh]
 	if w.c.blkErr[w.k] {
 		w.log = append(w.log, fmt.Sprintf("cb block %d => err", h))
@@ -335,17 +370,46 @@ func (w *world) result(l *liveReq, wd time.Duration) (s string) {
 		// k > 400: no generated case needs that many GetBlockHash calls (at most 9 blocks, a handful of
 		// batches); the scanner is rescanning without ever answering (livelock)
 		spinning := w.bestRun > 2000 || w.k > 400
+		idleFor := time.Since(w.lastCall)
 		w.mu.Unlock()
-		if spinning {
-			return "HANG"
+		slow := !spinning && time.Since(start) >= wd && idleFor >= wd
+		if !spinning && !slow {
+			continue
 		}
-		if time.Since(start) >= wd {
+		// Under load the 2 ms timer may have fired before Result reached its select, and select picks
+		// at random among ready channels: a buffered answer can lose against the cancel channel.  Ask
+		// again with a cancel channel that is already closed: a buffered answer is then returned with
+		// probability 1/2 per call, so 24 cancelled calls in a row mean there is none.
+		closed := make(chan struct{})
+		close(closed)
+		for i := 0; i < 24; i++ {
+			rep, err := l.req.Result(closed)
+			if !errors.Is(err, neutrino.ErrGetUtxoCancelled) {
+				return w.showResult(rep, err)
+			}
+		}
+		if slow {
 			w.mu.Lock()
 			w.slowHangs++
 			w.mu.Unlock()
-			return "HANG"
 		}
+		return "HANG"
 	}
+}
+
+// resultAfterStop reads a result after Stop has returned: the closed quit channel releases Result, so
+// one call with a generous bound suffices (no polling, no dependence on short timers).
+func (w *world) resultAfterStop(l *liveReq) (s string) {
+	defer func() {
+		if r := recover(); r != nil {
+			s = "PANIC"
+		}
+	}()
+	cancel := make(chan struct{})
+	tm := time.AfterFunc(8*time.Second, func() { close(cancel) })
+	defer tm.Stop()
+	rep, err := l.req.Result(cancel)
+	return w.showResult(rep, err)
 }
 
 var againBudget = 8
@@ -367,7 +431,11 @@ func runCase(t *tr.W, c *caseSpec) (hangs int) {
 			for i, in := range x.ins {
 				ins[i] = fmt.Sprintf("%d.%d", in.txid, in.idx)
 			}
-			ss = append(ss, fmt.Sprintf("%d:%d:%s", x.id, x.nout, strings.Join(ins, ",")))
+			scr := make([]string, x.nout)
+			for o := range scr {
+				scr[o] = fmt.Sprint(w.scriptOf(x.id, o))
+			}
+			ss = append(ss, fmt.Sprintf("%d:%d:%s:%s", x.id, x.nout, strings.Join(ins, ","), strings.Join(scr, ",")))
 		}
 		if len(ss) == 0 {
 			ss = []string{"-"}
@@ -425,7 +493,7 @@ func runCase(t *tr.W, c *caseSpec) (hangs int) {
 		if fired {
 			select {
 			case <-w.stopDone:
-			case <-time.After(3 * time.Second):
+			case <-time.After(15 * time.Second):
 			}
 		}
 		if len(todo) == 0 {
@@ -509,12 +577,12 @@ func runCase(t *tr.W, c *caseSpec) (hangs int) {
 	select {
 	case <-done:
 		t.Op("end", "stopped")
-	case <-time.After(3 * time.Second):
+	case <-time.After(15 * time.Second):
 		t.Op("end", "STOP-HANG")
 	}
 	for _, l := range w.live {
 		if l.obs == "HANG" {
-			t.Op(fmt.Sprintf("after %d", l.spec.id), w.result(l, c.wd))
+			t.Op(fmt.Sprintf("after %d", l.spec.id), w.resultAfterStop(l))
 		}
 	}
 	return w.slowHangs
@@ -527,7 +595,7 @@ func empty() map[int]bool { return map[int]bool{} }
 func probes() []*caseSpec {
 	mk := func(kind string, blocks [][]txSpec, tip int, reqs []reqSpec) *caseSpec {
 		return &caseSpec{kind: kind, blocks: blocks, tip0: tip, reqs: reqs, fp: empty(), hashErr: empty(),
-			fltrErr: empty(), blkErr: empty(), wd: 250 * time.Millisecond, stopAtEnd: true}
+			fltrErr: empty(), blkErr: empty(), wd: 2 * time.Second, stopAtEnd: true}
 	}
 	one := [][]txSpec{{{id: 1, nout: 1}}, {}, {}}
 	// F5: the second request (later start height) must not erase the output found for the first.
@@ -540,24 +608,41 @@ func probes() []*caseSpec {
 	// a second Result call.
 	p4 := mk("probe-again", one, 2, []reqSpec{{1, 1, 0, 0, 0}})
 	p4.again = true
-	p4.wd = 120 * time.Millisecond
-	return []*caseSpec{p1, p2, p3, p4}
+	// two outputs paying to ONE script, spent in different blocks: the script must stay in the watch
+	// list after the first spend, else the block with the second spend is never fetched.
+	shared := [][]txSpec{{{id: 1, nout: 2, scr: []int{7, 7}}}, {{id: 2, ins: []op{{1, 0}}, nout: 1}}, {},
+		{{id: 3, ins: []op{{1, 1}}, nout: 1}}, {}}
+	p5 := mk("probe-shared-script", shared, 4, []reqSpec{{1, 1, 0, 0, 0}, {2, 1, 1, 0, 0}})
+	return []*caseSpec{p1, p2, p3, p4, p5}
 }
 
 // ---- random cases ----------------------------------------------------------------------------
 
 func gen(r *rand.Rand, risky bool) *caseSpec {
 	c := &caseSpec{kind: "rand", fp: empty(), hashErr: empty(), fltrErr: empty(), blkErr: empty(),
-		wd: 400 * time.Millisecond}
+		wd: 2 * time.Second}
 	nb := 2 + r.Intn(7)
-	type created struct{ txid, nout, h int }
+	type created struct {
+		txid, nout, h int
+		scr           []int
+	}
 	var made []created
+	var scripts []int // script id of every output made so far
 	next := 1
 	for h := 0; h < nb; h++ {
 		var txs []txSpec
 		for n := r.Intn(4); n > 0; n-- {
 			t := txSpec{id: next, nout: 1 + r.Intn(3)}
 			next++
+			for o := 0; o < t.nout; o++ {
+				// a third of the outputs pay to a script some earlier output already pays to
+				if len(scripts) > 0 && r.Intn(3) == 0 {
+					t.scr = append(t.scr, scripts[r.Intn(len(scripts))])
+				} else {
+					t.scr = append(t.scr, len(scripts)+1)
+				}
+				scripts = append(scripts, t.scr[o])
+			}
 			for m := r.Intn(3); m > 0; m-- {
 				switch x := r.Intn(10); {
 				case x < 7 && len(made) > 0:
@@ -577,7 +662,7 @@ func gen(r *rand.Rand, risky bool) *caseSpec {
 			txs = append(txs, t)
 		}
 		for _, t := range txs {
-			made = append(made, created{t.id, t.nout, h})
+			made = append(made, created{t.id, t.nout, h, t.scr})
 		}
 		c.blocks = append(c.blocks, txs)
 	}
@@ -610,6 +695,24 @@ func gen(r *rand.Rand, risky bool) *caseSpec {
 				q.birth = r.Intn(p.birth + 1)
 			default:
 				q.birth = p.birth + r.Intn(3)
+			}
+		case x < 8 && len(c.reqs) > 0: // another outpoint paying to the script of an earlier request's outpoint
+			p := c.reqs[r.Intn(len(c.reqs))]
+			want, found := -1, false
+			for _, m := range made {
+				if m.txid == p.txid && p.idx < m.nout {
+					want = m.scr[p.idx]
+				}
+			}
+			for _, m := range made {
+				for o, sc := range m.scr {
+					if sc == want && !(m.txid == p.txid && o == p.idx) && !found {
+						q.txid, q.idx, q.birth, found = m.txid, o, m.h, true
+					}
+				}
+			}
+			if !found {
+				q.txid, q.idx, q.birth = p.txid, p.idx, p.birth
 			}
 		case x < 17 && len(made) > 0:
 			p := made[r.Intn(len(made))]
